@@ -75,7 +75,11 @@ CHECKS = {
               "creation returns a graph that mirrors the definition one-to-one (partial: same-type sibling devices / services, "
               "D32 / D33, excluded by guards and proved refuted), strict mode refuses any corrupted service document with a "
               "library error (full), non-strict mode degrades corrupted services and mirrors the rest. The model is run against "
-              "the real factory on rendered XML text, raw mutated documents and every corruption assignment of a 3-service tree."),
+              "the real factory on rendered XML text, raw mutated documents and every corruption assignment of a 3-service tree, "
+              "also with a second description built by the same factory before or interleaved with the one under test. Domain "
+              "(Spec.wf_desc): conformant services, URLs of either style, one document per SCPD URL - services may share an SCPD "
+              "URL provided they have the same state variables, actions and corruption marker; the stricter 'own SCPD URL per "
+              "service' domain wf_dev is kept for C14."),
         technique="Coq proof (record-rendering/permutation lemmas, parse o render = id by nested induction, refinement to a definition-level object function, C08 reused) + generated type tables + differential correspondence",
         design="§4 C05",
     ),
